@@ -30,7 +30,7 @@ def can_overflow(t, n, base=None):
     bits, s = TYPES[t]
     if n < 1: return False
     return (base or 36) ** n - 1 > (1 << (bits - s)) - 1
-def q(entry, cfg, ub, solver='minisat', budget=120):
+def q(entry, cfg, ub, solver='minisat', budget=300):
     return dict(entry=entry, cfg=cfg, unwind=cfg['SN'] + 3, unwindset=US, budget=budget, ub=ub, nofunc=ub, solver=solver)
 def queries(tier, prop='C10'):
     ub = prop == 'C02'
@@ -38,7 +38,7 @@ def queries(tier, prop='C10'):
     out = []
     narrow = ['unsigned char', 'signed char', 'unsigned short', 'short'] + (['char'] if thorough else [])
     wide = ['unsigned', 'int', 'unsigned long', 'long'] + (['unsigned long long', 'long long'] if thorough else [])
-    def both(cfg, sv='minisat', bud=120):
+    def both(cfg, sv='minisat', bud=300):
         out.append(q('q_from_chars', cfg, ub, sv, bud))
         out.append(q('q_to_integer', cfg, ub, sv, bud))
     # ---- base symbolic over 2..36
@@ -47,7 +47,7 @@ def queries(tier, prop='C10'):
         nmax = {8: 4, 16: 2}.get(bits, 2) if thorough else {8: 2}.get(bits, 1)
         for n in range(0, nmax + 1):
             cfg = {'TY': t, 'SN': n, 'WOVF': int(can_overflow(t, n))}
-            sv, bud = ('minisat', 120) if n <= (2 if bits == 8 else 1) else ('kissat', 900)
+            sv, bud = ('minisat', 300) if n <= (2 if bits == 8 else 1) else ('kissat', 900)
             both(cfg, sv, bud)
             if n in (0, 1, 3): out.append(q('q_from_chars_def', dict(cfg, WOVF=int(can_overflow(t, n, 10))), ub, sv, bud))
     # ---- base enumerated
@@ -62,7 +62,7 @@ def queries(tier, prop='C10'):
             elif bits == 32: grid += [(b, 5) for b in (10, 16)] + [(2, n) for n in (1, 4)]
         for b, n in grid:
             cfg = {'TY': t, 'SN': n, 'BASE': b, 'WOVF': int(can_overflow(t, n, b))}
-            sv, bud = ('minisat', 120) if n <= 4 else ('kissat', 900)
+            sv, bud = ('minisat', 300) if n <= 4 else ('kissat', 900)
             both(cfg, sv, bud)
             if b == 10 and n in (3, 4): out.append(q('q_from_chars_def', cfg, ub, sv, bud))
     if thorough:
@@ -71,12 +71,12 @@ def queries(tier, prop='C10'):
     ATO = ('q_atoi', 'q_atol', 'q_atoll', 'q_stoi_def')
     for n in range(0, (3 if thorough else 2) + 1):
         cfg = {'TY': 'int', 'SN': n, 'WOVF': 0}
-        sv, bud = ('minisat', 120) if n <= 2 else ('kissat', 900)
+        sv, bud = ('minisat', 300) if n <= 2 else ('kissat', 900)
         for e in CFUNCS + (STOFUNCS if n >= 1 else []):
             out.append(q(e, cfg, ub, sv, bud))
     for b, n in [(b, n) for b in (10, 16) for n in (3, 4)] + ([(b, n) for b in (8, 36) for n in (3, 4)] + [(10, 5)] if thorough else []):
         cfg = {'TY': 'int', 'SN': n, 'BASE': b, 'WOVF': 0}
-        sv, bud = ('minisat', 120) if n <= 4 else ('kissat', 900)
+        sv, bud = ('minisat', 300) if n <= 4 else ('kissat', 900)
         for e in CFUNCS + STOFUNCS:
             if e in ATO and b != 10: continue
             out.append(q(e, cfg, ub, sv, bud))
